@@ -405,6 +405,9 @@ func (m *Model) applyEVMTx(ws *MState, ti *TxInfo, r *abci.ResponseDeliverTx, h 
 		if fee.Cmp(minFee) < 0 {
 			issue("C16", "fee-below-minimum-accepted", fmt.Sprintf("fee %s < minimum %s", fee, minFee))
 		}
+		if ig, err := core.IntrinsicGas(data, nil, ref0(tx.To), true, true); err == nil && tx.Gas < ig {
+			issue("C16", "below-intrinsic-gas-accepted", fmt.Sprintf("gas limit %d below intrinsic gas %d", tx.Gas, ig))
+		}
 		if uint64(r.GasWanted) != tx.Gas || uint64(r.GasUsed) > tx.Gas {
 			issue("C16", "contract-gas-fields", fmt.Sprintf("gas=%d GasWanted=%d GasUsed=%d", tx.Gas, r.GasWanted, r.GasUsed))
 		}
@@ -449,4 +452,14 @@ func (m *Model) applyEVMTx(ws *MState, ti *TxInfo, r *abci.ResponseDeliverTx, h 
 	}
 	sumFee.Add(sumFee, new(big.Int).Mul(new(big.Int).SetUint64(ref.GasUsed), price))
 	out.Burned.Add(out.Burned, ref.Burn)
+}
+
+// ref0: is the receiver the zero address (contract creation)?
+func ref0(to []byte) bool {
+	for _, b := range to {
+		if b != 0 {
+			return false
+		}
+	}
+	return true
 }
